@@ -26,6 +26,7 @@ func C36(e *simkern.Env) {
 		MaxTurns: 5, NonceBase: 36000, EmitMeta: true, Pad: pad})
 	shmSend := tp.Bool(1, 2)
 	lazyClient := tp.Bool(1, 2)
+	rotate := tp.Bool(1, 3)
 	if lazyClient {
 		// a lazy client is interesting when several results are outstanding:
 		// add a run of unary calls whose results are large enough for the segment
@@ -52,6 +53,7 @@ func C36(e *simkern.Env) {
 	e.Knob("advertise", []string{"all", "first-only", "subset"}[advertise])
 	e.Knob("client_sends_via_shm", shmSend)
 	e.Knob("client_holds_unary_pointers", lazyClient)
+	e.Knob("failed_segment_rotations", rotate)
 	e.Res.Sample = pipew.Describe(ops)
 	left := e.Bubble(func() {
 		sim := simkern.NewSim(tp, e.Trace)
@@ -84,6 +86,11 @@ func C36(e *simkern.Env) {
 		}
 		shm := &pipew.Session{Srv: pipew.NewServer(nil), Ops: ops, Shm: seg, ShmSend: shmSend,
 			Advertise: func(op *pipew.Op) bool { return adv[idx[op]] }}
+		if rotate {
+			// segment rotation that fails on the server side, on calls that do
+			// not advertise the real segment
+			shm.AdvertiseBogus = func(op *pipew.Op) bool { return op.Kind == "unary" && tp.Bool(1, 3) }
+		}
 		if lazyClient {
 			// a client that consumes unary results lazily: it keeps their pointer
 			// batches and resolves+frees them later, between calls, in any order
@@ -105,6 +112,7 @@ func C36(e *simkern.Env) {
 			sim.ProbeN("batches-sent-through-shm-by-client", shm.ShmSentCount)
 			sim.ProbeN("pointer-batches-held-until-end-of-stream", shm.ShmDeferred)
 			sim.ProbeN("most-unary-pointers-held-at-once", shm.HeldMax)
+			sim.ProbeN("calls-advertising-an-unopenable-segment", shm.BogusSent)
 			if shm.ShmErr != nil {
 				e.Violate("pointer-not-resolvable", "shm-session", "%v", shm.ShmErr)
 			}
